@@ -15,6 +15,8 @@ from concurrent.futures import ProcessPoolExecutor
 
 sys.path.insert(0, "/verif")
 PIDS = [f"C{i:02d}" for i in range(2, 21)]
+if os.environ.get("PM_CHECKS"):  # restrict the checks that are run (e.g. PM_CHECKS="C02 C06"), for a quick regression of new rules
+    PIDS = os.environ["PM_CHECKS"].split()
 
 
 def job(args):
